@@ -114,6 +114,42 @@ pub fn gen_c08(seed: u64, thorough: bool) {
         out_durations(ds2, &mut line);
         println!("{}", line);
     }
+    // engine level: the speed reaches the estimator unchanged whatever the output settings are (frame period and
+    // sampling-rate overrides, volume, ...): `Engine::synthesize` returns frame_period x max(round(F1/s), #states) samples
+    // (seeded change C08f: the speed rescaled by the frame-shift ratio inside Engine::generator)
+    let mut engine = Engine::load(&[BUNDLED_VOICE]).expect("bundled voice");
+    let nengine = if thorough { 600 } else { 40 };
+    for i in 0..nengine {
+        let nlab = rng.range(1, 12);
+        let start = rng.below(corpus.len() - nlab);
+        let labels: Vec<String> = corpus[start..start + nlab].to_vec();
+        let parsed: Vec<jlabel::Label> = labels.iter().map(|l| l.parse().unwrap()).collect();
+        let ps = Models::new(&parsed, &engine.voices, engine.condition.get_interporation_weight()).duration();
+        let f1: usize = DurationEstimator::new(ps.clone(), 1).create(1.0).iter().sum();
+        let s = if i % 5 == 0 { *rng.pick(&[0.5, 2.0, 1.0]) } else { pick_speed(&mut rng, f1) };
+        let fp = *rng.pick(&[240usize, 240, 120, 360, 80, 1, 7, 441]);
+        let rate = *rng.pick(&[48000usize, 48000, 44100, 16000, 22050, 96000]);
+        engine.condition.set_sampling_frequency(rate);
+        engine.condition.set_fperiod(fp);
+        engine.condition.set_speed(s);
+        engine.condition.set_volume(*rng.pick(&[0.0, -10.0]));
+        let fp_eff = engine.condition.get_fperiod();
+        let s_eff = engine.condition.get_speed();
+        let e2 = &engine;
+        let r = catch(std::panic::AssertUnwindSafe(move || e2.synthesize(labels).map(|w| w.len()).map_err(|e| format!("{e:?}"))));
+        let mut line = String::from("durE");
+        push_u(&mut line, ps.len());
+        push_params(&mut line, &ps);
+        push_f(&mut line, s_eff);
+        push_u(&mut line, fp_eff);
+        push_u(&mut line, rate);
+        match r {
+            Ok(Ok(n)) => { push_s(&mut line, "ok"); push_u(&mut line, n); }
+            Ok(Err(e)) => { push_s(&mut line, "err"); push_s(&mut line, &esc(&e)); }
+            Err(site) => { push_s(&mut line, "panic"); push_s(&mut line, &esc(&site)); }
+        }
+        println!("{}", line);
+    }
 }
 
 /// all 4^n combinations of {none, start, end, both} for small n are enumerated by index
